@@ -6,4 +6,6 @@ open Banyan
 def main (args : List String) : IO Unit :=
   let legacy := if args.contains "legacy" then true else if args.contains "fixed" then false
                 else !Generated.C02.initGuarded
-  runDriver (Store.Proto.handleWith (if legacy then C01.cfgLegacy else C01.cfg))
+  let batchLegacy := if args.contains "batchlegacy" then true else if args.contains "batchfixed" then false
+                     else !Generated.C02.batchCutBetweenPoints
+  runDriver (Store.Proto.handleWith { (if legacy then C01.cfgLegacy else C01.cfg) with batchFinishRun := !batchLegacy })
